@@ -113,6 +113,10 @@ func shapeClass(p rtcp.Packet) string {
 		if v.Bitrate < 1 {
 			return "bitrate-below-1"
 		}
+	case *rtcp.ApplicationDefined:
+		if len(v.Data) > 0xFFFF-12 {
+			return "data-over-65523"
+		}
 	}
 	return ""
 }
